@@ -442,33 +442,53 @@ def do_history(case):
 
 
 def do_codegen(case):
-    """one phase of the codegen scenario; every phase runs in its own process (dlopen caches libraries):
-    1: transfer(o1) to completion; 2: transfer(o2) killed after the libraries are written and before the
-    cache file is opened; 3: transfer(o1) judged against a fresh compile"""
+    """one step of a codegen scenario; every step runs in its own process (dlopen caches libraries):
+    phase "complete": transfer(opts) to completion (writes the .mo first if asked);
+    phase "kill":     transfer(opts) killed after k of the four libraries are built (k = 4: at the open of
+                      the cache file, i.e. after everything save_model does before it);
+    phase "check":    transfer(opts) judged against a fresh compile"""
     a = api()
     name, d = case["name"], case["dir"]
     text = case["template"].replace("@N@", "0")
     mo = os.path.join(d, name + ".mo")
     os.chdir(d)
-    if case["phase"] == 1:
-        open(mo, "w").write(text)
-        os.utime(mo, (T0, T0))
-        m = a.transfer_model(d, name, dict(case["o1"]))
+    ph = {1: "complete", 2: "kill", 3: "check"}.get(case["phase"], case["phase"])
+    opts = case.get("opts") or (case["o2"] if ph == "kill" else case["o1"])
+    if ph == "complete":
+        if not os.path.exists(mo):
+            open(mo, "w").write(text)
+            os.utime(mo, (T0, T0))
+        m = a.transfer_model(d, name, dict(opts))
         return {"out": type(m).__name__, "files": sorted(os.listdir(d))}
-    if case["phase"] == 2:
+    if ph == "kill":
+        k = case.get("k", 4)
+
         def boom():
             raise SimCrash()
+        orig = a._codegen_model
+        built = []
+
+        def codegen(*args, **kw):
+            if len(built) >= k:
+                raise SimCrash()
+            r = orig(*args, **kw)
+            built.append(os.path.basename(str(r)))
+            return r
+        a._codegen_model = codegen
         try:
             with Cutter(a, 0, boom) as c:
-                a.transfer_model(d, name, dict(case["o2"]))
-            return {"out": "completed", "fired": c.fired}
+                a.transfer_model(d, name, dict(opts))
+            return {"out": "completed", "fired": c.fired, "built": built}
         except SimCrash:
-            return {"out": "Died", "fired": True}
+            return {"out": "Died", "fired": True, "built": built,
+                    "cache_exists": os.path.exists(os.path.join(d, name + ".pymoca_cache"))}
+        finally:
+            a._codegen_model = orig
     try:
-        m = a.transfer_model(d, name, dict(case["o1"]))
+        m = a.transfer_model(d, name, dict(opts))
     except BaseException as e:  # noqa
         return {"out": "Raised", "exc": type(e).__name__, "msg": str(e)[:200]}
-    s, ref = signature(m), reference(name, text, case["o1"])
+    s, ref = signature(m), reference(name, text, opts)
     r = {"out": "Loaded" if isinstance(m, a.CachedModel) else "Recompiled", "sig_ok": s == ref}
     if s != ref:
         r["sig"], r["ref"] = s["vals"], ref["vals"]
